@@ -33,6 +33,12 @@ EXTERNAL_RAISES = {
     "urllib.request.urljoin": ["builtins.ValueError"],
     "urllib.parse.urljoin": ["builtins.ValueError"],
     "urllib.parse.urldefrag": ["builtins.ValueError"],
+    # "Invalid IPv6 URL" for an unbalanced '[' in the network location,
+    # "netloc ... contains invalid characters under NFKC normalization"
+    "urllib.parse.urlsplit": ["builtins.ValueError"],
+    "urllib.parse.urlparse": ["builtins.ValueError"],
+    "urllib.request.urlsplit": ["builtins.ValueError"],
+    "urllib.request.urlparse": ["builtins.ValueError"],
     "urllib.request.urlunparse": [],
     "socket.inet_pton": ["builtins.OSError"],
     # a duration outside datetime's range, or an infinite component
